@@ -717,8 +717,14 @@ func reorderedCostDeltas(r *Run, variant int, prop string) {
 		if _, ok := c.Get(key); ok {
 			onlyKey = false
 		}
+		// the same reordering with a smaller cost: the key's own weight stays within MaxSize, but the policy's total
+		// (others + cB + (cB - cA)) stands above it for a moment, and the eviction that answers takes bystanders - at
+		// most as many (they cost 1 each) as the total stood above MaxSize
+		excess := int64(others) + cB + (cB - cA) - M
 		if onlyKey {
 			vkey += "/only-the-rewritten-key-itself-evicted-while-its-policy-weight-stood-above-maxsize"
+		} else if excess > 0 && int64(evicted) <= excess && int64(missing) <= excess {
+			vkey += "/bystanders-evicted-while-the-policy-total-stood-above-maxsize/no-more-than-the-excess"
 		}
 	}
 	if evicted > 0 || missing > 0 {
